@@ -42,7 +42,22 @@ E1 == << Doc("E1", "enum-mb-max1", [type |-> "string", enum |-> <<JS(<<"<e9>">>)
          Doc2("E1", "prop-of-enum", SObj(Props1("c", SRef("C")), {"c"}), "C", EnumS(<<JS(<<"r">>), JS(<<"g">>)>>)),
          Doc("E1", "pattern-min", [type |-> "string", pattern |-> "^a+$", minLength |-> 2]) >>
 
-EnforcedUniverse == SelectSeq(QuickUniverse \o G5, LAMBDA dd : Enforced(dd.defs["T"], dd.defs, 3)) \o E1
+(* every combination of minLength, maxLength (0..3 or absent, min <= max) and pattern (or none) *)
+LenOpts == {-1, 0, 1, 2, 3}
+PatOpts == <<"", "^a+$", "^[a-z]*$", "b", "^ab">>
+NumTok(n) == CASE n = -1 -> "x" [] n = 0 -> "0" [] n = 1 -> "1" [] n = 2 -> "2" [] n = 3 -> "3" [] n = 4 -> "4"
+StrDoc(mn, mx, pi) ==
+    Doc("E2", "min" \o NumTok(mn) \o "-max" \o NumTok(mx) \o "-pat" \o NumTok(pi - 1),
+        [type |-> "string"]
+        @@ (IF mn >= 0 THEN [minLength |-> mn] ELSE << >>)
+        @@ (IF mx >= 0 THEN [maxLength |-> mx] ELSE << >>)
+        @@ (IF pi > 1 THEN [pattern |-> PatOpts[pi]] ELSE << >>))
+E2 == LET combos == { <<mn, mx, pi>> \in LenOpts \X LenOpts \X (1 .. 5) :
+                        (mn = -1 \/ mx = -1 \/ mn <= mx) /\ (mn >= 0 \/ mx >= 0 \/ pi > 1) }
+          cs == SetToSeq(combos)
+      IN [i \in DOMAIN cs |-> StrDoc(cs[i][1], cs[i][2], cs[i][3])]
+
+EnforcedUniverse == SelectSeq(QuickUniverse \o G5, LAMBDA dd : Enforced(dd.defs["T"], dd.defs, 3)) \o E1 \o E2
 
 (* string-like documents for C11: wire form always a JSON string *)
 S1 == << Doc("S1", "enum-odd-case", EnumS(<<JS(<<"r","e","d">>), JS(<<"R","E","D">>), JS(<<"R","e","d","d">>)>>)),
@@ -61,7 +76,7 @@ FixS1 == [i \in DOMAIN S1 |->
 IsStringDoc(dd) == LET t == dd.defs["T"] IN
     \/ (SHas(t, "type") /\ t.type = "string")
     \/ (SHas(t, "not") /\ SHas(t["not"], "enum") /\ \A i \in DOMAIN t["not"].enum : t["not"].enum[i].t = "str")
-StringUniverse == SelectSeq(QuickUniverse \o E1 \o G5, IsStringDoc) \o FixS1
+StringUniverse == SelectSeq(QuickUniverse \o E1 \o E2 \o G5, IsStringDoc) \o FixS1
 
 (* probe strings for string-like types: every string candidate of the
    schema plus fixed extras *)
